@@ -540,7 +540,7 @@ func raceChild(tier, seedS, out string) int {
 	rounds := 10
 	opsPerG := 250
 	if tier == "thorough" {
-		rounds, opsPerG = 260, 600
+		rounds, opsPerG = 120, 500
 	}
 	if v := os.Getenv("VERIF_C19_ROUNDS"); v != "" {
 		rounds, _ = strconv.Atoi(v)
@@ -1133,7 +1133,7 @@ func runC19(c *core.Ctx, ck *Check) {
 		c.Inconclusive("race build failed: " + trunc(string(b), 400))
 		return
 	}
-	repeats := c.Scale(1, 5)
+	repeats := c.Scale(1, 3)
 	totalReports := 0
 	allDedup := map[string]string{}
 	for rep := 0; rep < repeats; rep++ {
@@ -1206,7 +1206,7 @@ func runC19(c *core.Ctx, ck *Check) {
 		var wg sync.WaitGroup
 		var mu sync.Mutex
 		sem := make(chan struct{}, 12)
-		for rep := 0; rep < c.Scale(3, 24); rep++ {
+		for rep := 0; rep < c.Scale(3, 12); rep++ {
 			for _, name := range names {
 				wg.Add(1)
 				go func(name string, rep int) {
